@@ -201,6 +201,21 @@ func c09SpecialSeq(g *gen.G, which int) *c09Seq {
 		c3 := mk("expr", "c09-guarded-by-swapped-in-import", y, imp(' ', "example.com/new/swaplog"), "swapMark(«y»)", "swapNew(«y»)")
 		return &c09Seq{changes: []*gen.Change{c1, c2, c3}, roles: []string{"swaps-import", "guarded-by-removed-import", "guarded-by-swapped-in-import"}, base: c1,
 			extra: []string{"swapMark(%s)"}, imports: "import (\n\t\"example.com/old/swaplog\"\n\t\"os\"\n)\n\nvar _ = os.Args\n"}
+	case 15:
+		// number literals in a spelling that printing normalises (0XFF, 1E3), written by an earlier change or captured
+		// from the file: a later change that spells them the old way matches the file the earlier change wrote or it
+		// does not, in the combined run as in the chain
+		if g.R.Intn(2) == 0 {
+			c1 := mk("expr", "c09-writes-a-number-literal", x, nil, "numOld(«x»)", "numNew(«x», 0XFF, 1E3)")
+			c2 := mk("expr", "c09-spells-the-number-that-way", y, nil, "numNew(«y», 0XFF, 1E3)", "numLast(«y»)")
+			c3 := mk("expr", "c09-spells-the-number-as-printed", y, nil, "numNew(«y», 0xFF, 1e3)", "numPrinted(«y»)")
+			return &c09Seq{changes: []*gen.Change{c1, c2, c3}, roles: []string{"writes-a-number-literal", "spells-the-number-that-way", "spells-the-number-as-printed"}, base: c1}
+		}
+		c1 := mk("expr", "c09-captures-a-number-literal", x, nil, "numOld(«x»)", "numMid(«x»)")
+		c2 := mk("expr", "c09-spells-the-number-that-way", nil, nil, "numMid(0X1F)", "numHex()")
+		c3 := mk("expr", "c09-spells-the-number-as-printed", nil, nil, "numMid(0x1F)", "numHexPrinted()")
+		return &c09Seq{changes: []*gen.Change{c1, c2, c3}, roles: []string{"captures-a-number-literal", "spells-the-number-that-way", "spells-the-number-as-printed"}, base: c1,
+			extra: []string{"numOld(0X1F%.0s)", "numOld(0x1F%.0s)", "numOld(0B11 + %s)"}}
 	case 13:
 		// an earlier change has an import on a context line, a later change of the same patch file has the same import
 		// on a '-' line and removes its last uses: what one change keeps says nothing about the other
@@ -516,6 +531,8 @@ func runC09(ctx *core.Ctx, idx int) *core.Result {
 		seq = c09SpecialSeq(g, 13)
 	case 7:
 		seq = c09SpecialSeq(g, 14)
+	case 1:
+		seq = c09SpecialSeq(g, 15)
 	}
 	// files
 	nf := 3
